@@ -7,7 +7,7 @@
 From Coq Require Import ZArith List Bool.
 From LV Require Import Gen.Consts_C06 Gen.Consts_C18 Wire.C2SInput Session.InputDefs
   Session.InputProofs Session.InputProofs3 Session.InputProofs4
-  Session.ClipboardDefs Session.ClipboardProofs.
+  Session.ClipboardDefs Session.ClipboardProofs Session.ClipboardProofs2.
 Import ListNotations.
 Local Open Scope Z_scope.
 
@@ -30,7 +30,9 @@ Theorem C18_classic_s2c_sent : forall text s c,
 Proof. exact publish_classic_out. Qed.
 
 (* ... and LibVNCClient hands the wire form of that message to GotXCutText unchanged *)
-Theorem C18_classic_s2c_received : forall zinflate zcompress xl l t,
+(* [_whole_message]: LibVNCClient's ReadFromRFBServer buffering and the server's partial rfbWriteExact
+   are not modelled - [lvc_recv] is given one complete message *)
+Theorem C18_classic_s2c_received_whole_message : forall zinflate zcompress xl l t,
   Z.of_nat (length t) <= c18_lvc_cut_limit ->
   lvc_recv zinflate xl l (enc_out zcompress (OClassic t)) = (l, [GotCut t], true).
 Proof. exact lvc_recv_classic. Qed.
@@ -58,13 +60,38 @@ Theorem C18_ext_c2s : forall zinflate zsync fs cfg o c b1 b2 l text bytes r,
   c_closed (a_client a2) = false /\ st_bytes (c_in (a_client a2)) = r /\ c_clip (a_client a2) = c_clip c.
 Proof. exact ext_c2s. Qed.
 
-(* the same for any peer: a Provide|Text message whose stream (open or finished) inflates to
-   size ++ data delivers exactly data *)
-Theorem C18_ext_provide_delivered : forall zinflate fs k z data t,
+(* the same for any peer - restricted to flags EXACTLY Provide|Text and a stream (open or finished)
+   that inflates to exactly ONE record size ++ data: it delivers exactly data.  (Several formats in
+   one Provide are exercised by the correspondence run only.) *)
+Theorem C18_ext_provide_delivered_single_record : forall zinflate fs k z data t,
   zinflate z = (be32 (Z.of_nat (length data)) ++ data, t) -> t = ZMore \/ t = ZEnd ->
   0 < Z.of_nat (length data) <= c18_ext_size_limit ->
   ext_cut_real zinflate fs false k (be32 (c18_Provide + c18_Text) ++ z) = (k, [U8 data 0], false).
 Proof. exact ext_provide_text. Qed.
+
+(* The record carries |text|+1 bytes (the NUL is counted) and both receivers compare THAT with their
+   limit: C18_ext_c2s / C18_ext_s2c_* therefore cover texts of 0 .. limit-1 bytes.  A text whose length
+   EQUALS the limit (2^20 in the code as it is) is refused by both sides - finding
+   C18-ext-exact-1MiB-text, proposed repair notes/fix_C18_4.diff (the constant is regenerated from
+   the source, so with the repair "limit" becomes 2^20+1 and a 2^20-byte text is covered above). *)
+Theorem C18_ext_exact_limit_closes : forall zinflate fs vo k z text t,
+  Z.of_nat (length text) = c18_ext_size_limit ->
+  zinflate z = (be32 (Z.of_nat (length text) + 1) ++ text ++ [0], t) ->
+  ext_cut_real zinflate fs vo k (be32 (c18_Provide + c18_Text) ++ z) = (k, [], true).
+Proof. exact ext_exact_limit_closes. Qed.
+
+Theorem C18_ext_exact_limit_only_sender : forall zinflate fs s id c z r text t,
+  ext_msg_pending s id c (be32 (c18_Provide + c18_Text) ++ z) r ->
+  Z.of_nat (length text) = c18_ext_size_limit ->
+  zinflate z = (be32 (Z.of_nat (length text) + 1) ++ text ++ [0], t) ->
+  closes_only_sender (ext_cut_real zinflate fs) s id c (c_clip c).
+Proof. exact only_sender_exact_limit. Qed.
+
+Theorem C18_lvc_ext_exact_limit_gives_up : forall zinflate l z text t,
+  Z.of_nat (length text) = c18_lvc_ext_size_limit ->
+  zinflate z = (be32 (Z.of_nat (length text) + 1) ++ text ++ [0], t) ->
+  lvc_ext zinflate l (be32 (c18_Provide + c18_Text) ++ z) = (l, [], false).
+Proof. exact lvc_ext_exact_limit. Qed.
 
 (* ---- extended clipboard, server -> client ---------------------------------------------- *)
 Theorem C18_ext_s2c_sent : forall fl text fb c,
@@ -75,7 +102,37 @@ Theorem C18_ext_s2c_sent : forall fl text fb c,
   k_data (c_clip c') = Some (text ++ [0]) /\ k_locked (c_clip c') = k_locked (c_clip c).
 Proof. exact pub_utf8_ext. Qed.
 
-Theorem C18_ext_s2c_received : forall zinflate zcompress xl l data,
+(* the text does not fit the peer's unsolicited-size limit (or the peer takes no Provide): it is
+   remembered and announced with a Notify ... *)
+Theorem C18_ext_s2c_notify : forall fl text fb c,
+  c_closed c = false -> k_ext (c_clip c) = true ->
+  has (k_usercap (c_clip c)) c18_Provide = false \/ k_maxunsol (c_clip c) < Z.of_nat (length text) ->
+  has (k_usercap (c_clip c)) c18_Notify = true ->
+  let c' := pub_utf8_client fl text fb c in
+  k_out (c_clip c') = k_out (c_clip c) ++ [ONotify] /\ k_data (c_clip c') = Some (text ++ [0]) /\
+  k_locked (c_clip c') = k_locked (c_clip c) /\ k_usercap (c_clip c') = k_usercap (c_clip c) /\
+  k_ext (c_clip c') = true.
+Proof. exact pub_utf8_notify. Qed.
+
+(* ... and the peer's Request is then answered with exactly that text, NUL-terminated, in one
+   Provide (the chain publish -> Notify -> Request -> Provide, starting from ANY client record) *)
+Theorem C18_notify_request_provide : forall zinflate fs fl vo text fb c,
+  c_closed c = false -> k_ext (c_clip c) = true ->
+  has (k_usercap (c_clip c)) c18_Provide = true -> has (k_usercap (c_clip c)) c18_Notify = true ->
+  k_maxunsol (c_clip c) < Z.of_nat (length text) ->
+  let c' := pub_utf8_client fl text fb c in
+  k_out (c_clip c') = k_out (c_clip c) ++ [ONotify] /\
+  ext_cut_real zinflate fs vo (c_clip c') (be32 (c18_Request + c18_Text)) =
+    (add_out (c_clip c') (OProvide (be32 (Z.of_nat (length text) + 1) ++ text ++ [0])), [], false).
+Proof. exact notify_request_provide. Qed.
+
+(* LibVNCClient itself ignores a Notify (it never sends a Request): a text announced by Notify only
+   does not reach GotXCutTextUTF8 *)
+Theorem C18_lvc_notify_ignored_whole_message : forall zinflate zcompress xl l, l_utf8 l = true ->
+  lvc_recv zinflate xl l (enc_out zcompress ONotify) = (l, [], true).
+Proof. exact lvc_recv_notify_ignored. Qed.
+
+Theorem C18_ext_s2c_received_whole_message : forall zinflate zcompress xl l data,
   l_utf8 l = true ->
   zinflate (zcompress (be32 (Z.of_nat (length data)) ++ data)) = (be32 (Z.of_nat (length data)) ++ data, ZEnd) ->
   0 < Z.of_nat (length data) <= c18_lvc_ext_size_limit ->
@@ -102,7 +159,7 @@ Theorem C18_caps_exchange_no_callback : forall cfg encs k,
   g_utf8cb cfg = false -> apply_encodings cfg k encs = k.
 Proof. exact apply_encodings_off. Qed.
 
-Theorem C18_caps_exchange_client : forall zinflate zcompress xl l, l_utf8 l = true ->
+Theorem C18_caps_exchange_client_whole_message : forall zinflate zcompress xl l, l_utf8 l = true ->
   exists l', lvc_recv zinflate xl l (enc_out zcompress OCaps) = (l', [], true) /\ l_caps l' <> 0 /\ l_utf8 l' = true.
 Proof. exact lvc_recv_caps. Qed.
 
@@ -183,6 +240,42 @@ Theorem C18_fallback_null_legacy_witness : forall text c,
   k_locked (c_clip c') = true /\ k_out (c_clip c') = k_out (c_clip c).
 Proof. exact pub_utf8_null_fallback_locks. Qed.
 
+(* ---- every connected client, mixed populations ------------------------------------------------
+   rfbSendServerCutTextUTF8 over the whole client list: EVERY connection - whatever the mix of
+   closed / extension+Provide / extension+Notify / extension with neither / classic clients - is
+   queued exactly what its class says ([pub_expect]) and nothing else about it changes (the code as
+   it is: fix_lock); the list keeps its ids and order *)
+Theorem C18_publish_utf8_every_client : forall text fb s id c,
+  fix_lock (s_cfg s) = true ->
+  find_client (s_clients s) id = Some c ->
+  exists c', find_client (s_clients (publish_utf8 text fb s)) id = Some c' /\
+    k_out (c_clip c') = k_out (c_clip c) ++ pub_expect text fb c /\
+    k_data (c_clip c') = (if negb (c_closed c) && k_ext (c_clip c) then Some (text ++ [0]) else k_data (c_clip c)) /\
+    k_locked (c_clip c') = k_locked (c_clip c) /\ k_ext (c_clip c') = k_ext (c_clip c) /\
+    set_clip c' (c_clip c) = c.
+Proof. exact publish_utf8_all. Qed.
+
+Theorem C18_publish_utf8_shape : forall text fb s,
+  map c_id (s_clients (publish_utf8 text fb s)) = map c_id (s_clients s) /\
+  s_owner (publish_utf8 text fb s) = s_owner s /\ s_cfg (publish_utf8 text fb s) = s_cfg s.
+Proof. exact publish_utf8_shape. Qed.
+
+Theorem C18_publish_classic_every_client : forall text s id c,
+  find_client (s_clients s) id = Some c ->
+  find_client (s_clients (publish_classic text s)) id =
+    Some (if c_closed c then c else set_clip c (add_out (c_clip c) (OClassic text))).
+Proof. exact publish_classic_all. Qed.
+
+Example C18_publish_mixed_nonvacuous :
+  let cfg := mkCfg 100 80 false 0 false false false 0 true 0 in
+  let mk id closed k := mkClient id SNormal closed 8 false None inp_empty ptr0 100 80 k in
+  let kx cap mu := mkClip true cap mu None [] false in
+  let s := mkSrv cfg [mk 1 false clip0; mk 2 false (kx (c18_Provide + c18_Notify + c18_Text) 10);
+                      mk 3 false (kx (c18_Provide + c18_Notify + c18_Text) 1); mk 4 true clip0] None 0 in
+  map (fun c => k_out (c_clip c)) (s_clients (publish_utf8 [104; 105] (Some [63]) s))
+  = [[OClassic [63]]; [OProvide (be32 3 ++ [104; 105; 0])]; [ONotify]; []].
+Proof. vm_compute. reflexivity. Qed.
+
 (* ---- limits, malformed messages ---------------------------------------------------------- *)
 Theorem C18_limits_short_payload : forall zinflate fs vo k p,
   (length p < 4)%nat -> ext_cut_real zinflate fs vo k p = (k, [], true).
@@ -194,10 +287,25 @@ Theorem C18_limits_size_field : forall zinflate fs k z size rest t,
   ext_cut_real zinflate fs false k (be32 (c18_Provide + c18_Text) ++ z) = (k, [], true).
 Proof. exact ext_provide_too_big. Qed.
 
-Theorem C18_limits_corrupt_zlib : forall zinflate fs k z,
-  zinflate z = ([], ZErr) ->
-  ext_cut_real zinflate fs false k (be32 (c18_Provide + c18_Text) ++ z) = (k, [], true).
-Proof. exact ext_provide_corrupt. Qed.
+(* a stream that breaks (or simply finishes) before the 4-byte size field is complete ... *)
+Theorem C18_limits_corrupt_zlib_early : forall zinflate fs vo k z c t,
+  zinflate z = (c, t) -> (length c < 4)%nat -> t <> ZMore ->
+  ext_cut_real zinflate fs vo k (be32 (c18_Provide + c18_Text) ++ z) = (k, [], true).
+Proof. exact ext_provide_corrupt_short. Qed.
+
+(* ... or after the size field, before the promised bytes are complete: nothing is delivered, not
+   even the bytes that did inflate *)
+Theorem C18_limits_corrupt_zlib_late : forall zinflate fs vo k z size data,
+  zinflate z = (be32 size ++ data, ZErr) -> 0 <= size < two32 -> Z.of_nat (length data) <= size ->
+  ext_cut_real zinflate fs vo k (be32 (c18_Provide + c18_Text) ++ z) = (k, [], true).
+Proof. exact ext_provide_corrupt_late. Qed.
+
+(* a Caps message whose length is not 4 + 4 * (number of format bits) (rfbserver.c:2966) *)
+Theorem C18_limits_caps_length : forall zinflate fs vo k flags p,
+  be32_at p 0 = Some flags -> has flags c18_Caps = true -> popcount16 flags <> 0 ->
+  Z.of_nat (length p) <> 4 + popcount16 flags * 4 ->
+  ext_cut_real zinflate fs vo k p = (set_caps k flags, [], true).
+Proof. exact ext_caps_bad_length. Qed.
 
 Theorem C18_limits_negative_length : forall (xl : bool) i len0 r,
   two31 <= len0 < two32 -> c06_cut_text_limit + (if xl then c06_ext_slack else 0) < neg32 len0 ->
@@ -231,6 +339,139 @@ Theorem C18_limits_short_stream_legacy_witness : forall zinflate fs k z size dat
   ext_cut_real zinflate fs false k (be32 (c18_Provide + c18_Text) ++ z)
   = (k, [U8 data (size - Z.of_nat (length data))], false).
 Proof. exact ext_provide_short_stream. Qed.
+
+(* ---- "closes only the offending connection" -------------------------------------------------
+   each rejection above, seen from one rfbProcessClientMessage of the whole server
+   ([closes_only_sender], Session/ClipboardProofs2.v): no callback, pointer owner unchanged, the
+   sender's record closed, and the FULL record of every other connection - clipboard state, queued
+   output, pending input, closed flag - equal to what it was *)
+Theorem C18_limits_short_payload_only_sender : forall zinflate fs s id c p r,
+  ext_msg_pending s id c p r -> (length p < 4)%nat ->
+  closes_only_sender (ext_cut_real zinflate fs) s id c (c_clip c).
+Proof. exact only_sender_short_payload. Qed.
+
+Theorem C18_limits_size_field_only_sender : forall zinflate fs s id c z r size rest t,
+  ext_msg_pending s id c (be32 (c18_Provide + c18_Text) ++ z) r ->
+  zinflate z = (be32 size ++ rest, t) -> rest <> [] -> c18_ext_size_limit < size < two32 ->
+  closes_only_sender (ext_cut_real zinflate fs) s id c (c_clip c).
+Proof. exact only_sender_size_field. Qed.
+
+Theorem C18_limits_corrupt_zlib_early_only_sender : forall zinflate fs s id c z r cc t,
+  ext_msg_pending s id c (be32 (c18_Provide + c18_Text) ++ z) r ->
+  zinflate z = (cc, t) -> (length cc < 4)%nat -> t <> ZMore ->
+  closes_only_sender (ext_cut_real zinflate fs) s id c (c_clip c).
+Proof. exact only_sender_corrupt_short. Qed.
+
+Theorem C18_limits_corrupt_zlib_late_only_sender : forall zinflate fs s id c z r size data,
+  ext_msg_pending s id c (be32 (c18_Provide + c18_Text) ++ z) r ->
+  zinflate z = (be32 size ++ data, ZErr) -> 0 <= size < two32 -> Z.of_nat (length data) <= size ->
+  closes_only_sender (ext_cut_real zinflate fs) s id c (c_clip c).
+Proof. exact only_sender_corrupt_late. Qed.
+
+Theorem C18_limits_short_stream_only_sender : forall zinflate fs s id c z r size data t, fs = true ->
+  ext_msg_pending s id c (be32 (c18_Provide + c18_Text) ++ z) r ->
+  zinflate z = (be32 size ++ data, t) -> t = ZEnd \/ t = ZMore -> data <> [] ->
+  Z.of_nat (length data) < size <= c18_ext_size_limit ->
+  closes_only_sender (ext_cut_real zinflate fs) s id c (c_clip c).
+Proof. exact only_sender_short_stream. Qed.
+
+Theorem C18_limits_caps_length_only_sender : forall zinflate fs s id c p r flags,
+  ext_msg_pending s id c p r ->
+  be32_at p 0 = Some flags -> has flags c18_Caps = true -> popcount16 flags <> 0 ->
+  Z.of_nat (length p) <> 4 + popcount16 flags * 4 ->
+  closes_only_sender (ext_cut_real zinflate fs) s id c (set_caps (c_clip c) flags).
+Proof. exact only_sender_caps_length. Qed.
+
+Theorem C18_limits_negative_length_only_sender : forall zinflate fs s id c len0 r,
+  find_client (s_clients s) id = Some c -> c_closed c = false -> c_state c = SNormal ->
+  k_ext (c_clip c) = true ->
+  two31 <= len0 < two32 ->
+  c06_cut_text_limit + (if fix_extlimit (s_cfg s) then c06_ext_slack else 0) < neg32 len0 ->
+  st_bytes (c_in c) = cut_hdr len0 ++ r ->
+  closes_only_sender (ext_cut_real zinflate fs) s id c (c_clip c).
+Proof. exact only_sender_negative_length. Qed.
+
+Example C18_only_sender_nonvacuous :
+  (* two connections with the extension on; 7 sends a Provide whose size field (100) exceeds what the
+     stream holds: 7 is closed, 3 is untouched *)
+  let cfg := mkCfg 100 80 false 0 false false false 0 true 0 in
+  let mk id bytes := mkClient id SNormal false 8 false None (mkInp bytes false []) ptr0 100 80
+                       (mkClip true c18_default_usercap c18_default_maxunsol None [] false) in
+  let p := be32 (c18_Provide + c18_Text) ++ be32 100 ++ [1; 2; 3] in
+  let c7 := mk 7 (cut_hdr (neg32 11) ++ p) in
+  let s := mkSrv cfg [mk 3 [9]; c7] None 0 in
+  ext_msg_pending s 7 c7 p [] /\
+  handle (ext_cut_real (fun z => (z, ZEnd)) true) s 7
+  = (mkSrv cfg [mk 3 [9]; set_closed (mk 7 []) true] None 0, []).
+Proof. vm_compute. repeat split; try reflexivity; discriminate. Qed.
+
+(* ---- LibVNCClient's own rejections: HandleRFBServerMessage returns FALSE, nothing reaches the
+   application (rfbclient.c:2598, 1930, 1979, 2001, 1973/1995) ---------------------------------- *)
+Theorem C18_lvc_ext_whole_message : forall zinflate xl l p,
+  l_utf8 l = true -> 0 < Z.of_nat (length p) <= c18_lvc_cut_limit ->
+  lvc_recv zinflate xl l (sct_ext_msg p) = lvc_ext zinflate l p.
+Proof. exact lvc_recv_ext_msg. Qed.
+
+Theorem C18_lvc_limits_too_long : forall zinflate (xl : bool) l m len0,
+  be32_at m 4 = Some len0 ->
+  (if two31 <=? len0
+   then c18_lvc_cut_limit + (if xl then c06_ext_slack else 0) < neg32 len0
+   else c18_lvc_cut_limit < len0) ->
+  lvc_recv zinflate xl l m = (l, [], false).
+Proof. exact lvc_recv_too_long. Qed.
+
+Theorem C18_lvc_limits_short_payload : forall zinflate l p,
+  (length p < 4)%nat -> lvc_ext zinflate l p = (l, [], false).
+Proof. exact lvc_ext_short_payload. Qed.
+
+Theorem C18_lvc_limits_size_field : forall zinflate l z size rest t,
+  zinflate z = (be32 size ++ rest, t) -> rest <> [] -> c18_lvc_ext_size_limit < size < two32 ->
+  lvc_ext zinflate l (be32 (c18_Provide + c18_Text) ++ z) = (l, [], false).
+Proof. exact lvc_ext_too_big. Qed.
+
+Theorem C18_lvc_limits_short_stream : forall zinflate l z size data t,
+  zinflate z = (be32 size ++ data, t) -> t = ZEnd \/ t = ZMore -> data <> [] ->
+  Z.of_nat (length data) < size <= c18_lvc_ext_size_limit ->
+  lvc_ext zinflate l (be32 (c18_Provide + c18_Text) ++ z) = (l, [], false).
+Proof. exact lvc_ext_short_stream. Qed.
+
+Theorem C18_lvc_limits_corrupt_zlib_early : forall zinflate l z c t,
+  zinflate z = (c, t) -> (length c < 4)%nat -> t <> ZMore ->
+  lvc_ext zinflate l (be32 (c18_Provide + c18_Text) ++ z) = (l, [], false).
+Proof. exact lvc_ext_corrupt_short. Qed.
+
+Theorem C18_lvc_limits_corrupt_zlib_late : forall zinflate l z size data,
+  zinflate z = (be32 size ++ data, ZErr) -> 0 <= size < two32 -> Z.of_nat (length data) <= size ->
+  lvc_ext zinflate l (be32 (c18_Provide + c18_Text) ++ z) = (l, [], false).
+Proof. exact lvc_ext_corrupt_late. Qed.
+
+Example C18_lvc_limits_nonvacuous :
+  let zi (z : list Z) := (z, ZEnd) in
+  lvc_recv zi false (mkLvc 1 true) (sct_ext_msg (be32 (c18_Provide + c18_Text) ++ be32 100 ++ [1; 2; 3]))
+  = (mkLvc 1 true, [], false).
+Proof. vm_compute. reflexivity. Qed.
+
+(* ---- the zlib premises ------------------------------------------------------------------
+   [zinflate]/[zcompress]/[zsync] are quantified in every theorem.  What ONE inflate() call reports
+   is the plain definition [ztake]; the four rules it encodes are stated here as propositions, [ztake]
+   obeys them, and they determine it on every call that asks for at least one byte - so each theorem
+   above holds for ANY per-call behaviour obeying the four rules (they are what the correspondence
+   run checks against the real zlib on valid, truncated and corrupted streams). *)
+Theorem C18_zlib_rules_obeyed : zrule_space ztake /\ zrule_end ztake /\ zrule_err ztake /\ zrule_more ztake.
+Proof. exact ztake_obeys. Qed.
+
+Theorem C18_zlib_rules_characterise : forall zt,
+  zrule_space zt -> zrule_end zt -> zrule_err zt -> zrule_more zt ->
+  forall c t inlen pos n, (0 < n)%nat -> zt c t inlen pos n = ztake c t inlen pos n.
+Proof. exact ztake_characterised. Qed.
+
+Example C18_zlib_open_stream_nonvacuous :
+  (* the ZMore path (a sync-flushed stream, what LibVNCClient sends) with a toy identity coding *)
+  let zi (z : list Z) := (z, ZMore) in
+  ext_cut_real zi true false clip0 (be32 (c18_Provide + c18_Text) ++ be32 3 ++ [104; 105; 0]) = (clip0, [U8 [104; 105; 0] 0], false) /\
+  ztake (be32 3 ++ [104; 105; 0]) ZMore 7 4 3 = ([104; 105; 0], ZS_OK) /\
+  ztake (be32 3 ++ [104; 105; 0]) ZMore 7 7 4 = ([], ZS_BUF).
+Proof. vm_compute. repeat split; reflexivity. Qed.
 
 (* ---- view-only ---------------------------------------------------------------------- *)
 Theorem C18_viewonly_no_delivery_ext : forall zinflate fs k p,
